@@ -40,7 +40,7 @@ func init() {
 			{ID: "C16-R16", Title: "errors of object constructors are raised, not pushed as values", Floor: 1, Run: constructorErrorsAreRaised},
 			{ID: "C16-R17", Title: "slice bounds are tested against the same limit", Floor: 1, Run: sliceBoundsShareTheLimit},
 			{ID: "C16-R18", Title: "byte_slice() and buffer() copy the bytes of the value they convert", Floor: 2, Run: conversionsCopyByteStorage},
-			{ID: "C16-R19", Title: "snapshot iterators skip removed keys", Floor: 2, Run: snapshotIteratorsSkipRemovedKeys},
+			{ID: "C16-R19", Title: "snapshot iterators skip removed keys", Floor: 1, Run: snapshotIteratorsSkipRemovedKeys},
 			{ID: "C16-R20", Title: "lists do not share storage", Floor: 1, Run: listsDoNotShareStorage},
 			{ID: "C16-R21", Title: "presence is not decided by nil", Floor: 1, Run: presenceIsNotDecidedByNil},
 			{ID: "C16-R22", Title: "immutable values are not written by their methods", Floor: 50, Run: immutableValuesAreNotWrittenByTheirMethods},
